@@ -271,6 +271,33 @@ func c18NilPointerHook(c *mon.Ctx) {
 			}
 		}
 	}
+	// a hook that needs ADDRESSABLE values (pointer-receiver getters): with a
+	// pointer datum the fields it is handed are addressable
+	addrHook := func(v reflect.Value) reflect.Value {
+		if v.IsValid() && v.Kind() == reflect.Struct && v.Type() == reflect.TypeOf(c18T{}) {
+			if v.CanAddr() {
+				return reflect.ValueOf("addressable")
+			}
+			return reflect.ValueOf("copy")
+		}
+		return v
+	}
+	type holder2 struct {
+		V c18T
+		L []c18T
+	}
+	h2 := &holder2{V: c18T{N: 1}, L: []c18T{{N: 2}}}
+	for _, cs := range []struct{ expr, want string }{{`V == addressable`, "T"}, {`V != copy`, "T"}, {`L.0 == addressable`, "T"}, {`any L as v { v == addressable }`, "T"}} {
+		ev, err, pan, _ := createEval(cs.expr, bexpr.WithHookFn(addrHook))
+		c.Evals(1)
+		if pan != "" || err != nil {
+			continue
+		}
+		if o := evaluate(ev, h2); o.Class3() != cs.want {
+			c.Violation(fmt.Sprintf("C18 hook-value-not-seen hook=needs-addressable-values got=%s want=%s", o.Class3(), cs.want), "with a pointer datum the hook is handed copies instead of the addressable fields, so its replacement differs", map[string]any{"expression": cs.expr, "observed": o.String(), "expected": cs.want})
+			return
+		}
+	}
 	c.Count("nil_pointer_hook_scenarios")
 }
 
@@ -471,7 +498,7 @@ func c18Run(c *mon.Ctx, idx int) {
 			}
 		}
 		o1, ok1, _ := c18Eval(text, node, append(append([]optSpec(nil), rest...), optSpec{kind: "tag", tag: "zz9"}))
-		o2, ok2, _ := c18Eval(text, node, append(append([]optSpec(nil), set...), optSpec{kind: "tag", tag: []string{"", "my tag", "bexpr ", " bexpr", "json:", "a\"b", "\x7f", "\ttab", "bexpr\x00"}[r.Intn(9)]}))
+		o2, ok2, _ := c18Eval(text, node, append(append([]optSpec(nil), set...), optSpec{kind: "tag", tag: []string{"", "my tag", "bexpr ", " bexpr", "json:", "a\"b", "\x7f", "\ttab", "bexpr\x00", "Bexpr", "BEXPR", "bExpr"}[r.Intn(12)]}))
 		c.Evals(2)
 		if ok1 != ok2 || (ok1 && o1.Class3() != o2.Class3()) {
 			c.Violation(fmt.Sprintf("C18 unused-tag-keys-differ zz9=%s empty=%s", o1.Class3(), o2.Class3()), "two tag names that no field of the datum carries (\"zz9\" and the empty name, given last) gave different outcomes",
